@@ -302,6 +302,19 @@ def build_space(case):
             else:
                 defs[p["name"]] = RangeExpressionTaskParameterDefinition(type=p["type"], range=p["range"])
         return StepParameterSpace.construct(taskParameterDefinitions=defs, combination=case.get("comb_text"))
+    if case["kind"] == "jspace":
+        from openjd.model.v2023_09 import (
+            RangeExpressionTaskParameterDefinition,
+            RangeListTaskParameterDefinition,
+            StepParameterSpace,
+        )
+        defs = {}
+        for p in case["params"]:
+            if isinstance(p["range"], list):
+                defs[p["name"]] = RangeListTaskParameterDefinition(type=p["type"], range=[str(v) for v in p["range"]])
+            else:
+                defs[p["name"]] = RangeExpressionTaskParameterDefinition(type=p["type"], range=p["range"])
+        return StepParameterSpace(taskParameterDefinitions=defs, combination=case.get("comb_text"))
     jt = decode_job_template(template=template_of(case))
     job = create_job(job_template=jt, job_parameter_values={})
     return job.steps[0].parameterSpace
@@ -553,6 +566,18 @@ def default_cases(n, rng):
         yield mk_case("space", params, None, gen_ops(rng, L, CAN_RESET), L)
 
 
+def joblevel_cases(n, rng):
+    """IN the property's domain: spaces assembled from the job-side model classes WITH validation (no template):
+    there a parameter given as a range expression may be declared FLOAT / STRING / PATH as well as INT, and every
+    task parameter set must carry the declared type"""
+    for c in random_cases(n, rng):
+        for p_ in c["params"]:
+            if isinstance(p_["range"], str) and rng.random() < 0.6:
+                p_["type"] = rng.choice(["FLOAT", "STRING", "PATH"])
+        c["kind"] = "jspace"
+        yield c
+
+
 def raw_cases(n, rng):
     """OUTSIDE the property's domain (unbalanced associations, built past validation with
     pydantic construct()): exercises the model's exception paths.  Disagreements here are
@@ -596,6 +621,7 @@ class C07(core.PropBase):
         yield from exhaustive_cases(5 if thorough else 4, rng)
         yield from random_cases(40000 if thorough else 2500, rng)
         yield from default_cases(5000 if thorough else 300, rng)
+        yield from joblevel_cases(3000 if thorough else 300, rng)
         yield from raw_cases(6000 if thorough else 400, rng)
         for _ in range(3):
             yield corpus()[-1]
